@@ -16,16 +16,16 @@ BATTR = {"none", "text", "bg", "brd_left", "brd_top", "brd_right", "brd_bottom"}
 PATHS = {"single", "multi2", "multi3", "figure"}
 ALLIDX = set(range(1, 658))
 GEN = {
-    "quick": [dict(name="all657", consts=dict(PathSet={"single"}, ColourIdx=ALLIDX, KSet={1}, ModeSet={"off"}, BodyAttrSet={"text"}, ShapeSet={"scalar"}, FontSet={1}, HAutoSet={False}, UseColorSet={"default"})),
-              dict(name="paths", consts=dict(PathSet=PATHS, ColourIdx={26, 552}, KSet={2}, ModeSet={"off", "both"}, BodyAttrSet={"none", "text"}, ShapeSet={"matrix"}, FontSet={1}, HAutoSet={False}, UseColorSet={"default"})),
-              dict(name="borders", consts=dict(PathSet=PATHS, ColourIdx={26, 552}, KSet={2}, ModeSet={"off", "border"}, BodyAttrSet={"none", "brd_top"}, ShapeSet={"col"}, FontSet={1}, HAutoSet={False}, UseColorSet={"default"})),
-              dict(name="options", consts=dict(PathSet={"single"}, ColourIdx={26, 552}, KSet={2}, ModeSet={"off", "both", "border"}, BodyAttrSet={"text"}, ShapeSet={"scalar"}, FontSet={1}, HAutoSet={False, True}, UseColorSet={"default", "true", "false"})),
-              dict(name="sim", consts=dict(PathSet=PATHS, ColourIdx=ALLIDX, KSet=set(range(1, 9)), ModeSet=MODES, BodyAttrSet=BATTR, ShapeSet={"scalar", "col", "matrix"}, FontSet=set(range(1, 11)), HAutoSet={False, True}, UseColorSet={"default", "true", "false"}), simulate=700)],
-    "thorough": [dict(name="all657", consts=dict(PathSet={"single", "multi2"}, ColourIdx=ALLIDX, KSet={1}, ModeSet={"off"}, BodyAttrSet={"text", "bg", "brd_top"}, ShapeSet={"scalar"}, FontSet={1}, HAutoSet={False}, UseColorSet={"default"})),
-                 dict(name="paths", consts=dict(PathSet=PATHS, ColourIdx={26, 552}, KSet={2}, ModeSet={"off", "both"}, BodyAttrSet={"none", "text"}, ShapeSet={"matrix"}, FontSet={1}, HAutoSet={False}, UseColorSet={"default"})),
-              dict(name="borders", consts=dict(PathSet=PATHS, ColourIdx={26, 552}, KSet={2}, ModeSet={"off", "border"}, BodyAttrSet={"none", "brd_top"}, ShapeSet={"col"}, FontSet={1}, HAutoSet={False}, UseColorSet={"default"})),
-              dict(name="options", consts=dict(PathSet={"single"}, ColourIdx={26, 552}, KSet={2}, ModeSet={"off", "both", "border"}, BodyAttrSet={"text"}, ShapeSet={"scalar"}, FontSet={1}, HAutoSet={False, True}, UseColorSet={"default", "true", "false"})),
-                 dict(name="sim", consts=dict(PathSet=PATHS, ColourIdx=ALLIDX, KSet=set(range(1, 9)), ModeSet=MODES, BodyAttrSet=BATTR, ShapeSet={"scalar", "col", "matrix"}, FontSet=set(range(1, 11)), HAutoSet={False, True}, UseColorSet={"default", "true", "false"}), simulate=12000)],
+    "quick": [dict(name="all657", consts=dict(PathSet={"single"}, ColourIdx=ALLIDX, KSet={1}, ModeSet={"off"}, BodyAttrSet={"text"}, ShapeSet={"scalar"}, FontSet={1}, HAutoSet={False}, UseColorSet={"default"}, ReEncSet={False})),
+              dict(name="paths", consts=dict(PathSet=PATHS, ColourIdx={26, 552}, KSet={2}, ModeSet={"off", "both"}, BodyAttrSet={"none", "text"}, ShapeSet={"matrix"}, FontSet={1}, HAutoSet={False}, UseColorSet={"default"}, ReEncSet={False})),
+              dict(name="borders", consts=dict(PathSet=PATHS, ColourIdx={26, 552}, KSet={2}, ModeSet={"off", "border"}, BodyAttrSet={"none", "brd_top"}, ShapeSet={"col"}, FontSet={1}, HAutoSet={False}, UseColorSet={"default"}, ReEncSet={False})),
+              dict(name="options", consts=dict(PathSet={"single"}, ColourIdx={26, 552}, KSet={2}, ModeSet={"off", "both"}, BodyAttrSet={"text"}, ShapeSet={"scalar"}, FontSet={1}, HAutoSet={False, True}, UseColorSet={"default", "true", "false"}, ReEncSet={False, True})),
+              dict(name="sim", consts=dict(PathSet=PATHS, ColourIdx=ALLIDX, KSet=set(range(1, 9)), ModeSet=MODES, BodyAttrSet=BATTR, ShapeSet={"scalar", "col", "matrix"}, FontSet=set(range(1, 11)), HAutoSet={False, True}, UseColorSet={"default", "true", "false"}, ReEncSet={False, True}), simulate=700)],
+    "thorough": [dict(name="all657", consts=dict(PathSet={"single", "multi2"}, ColourIdx=ALLIDX, KSet={1}, ModeSet={"off"}, BodyAttrSet={"text", "bg", "brd_top"}, ShapeSet={"scalar"}, FontSet={1}, HAutoSet={False}, UseColorSet={"default"}, ReEncSet={False})),
+                 dict(name="paths", consts=dict(PathSet=PATHS, ColourIdx={26, 552}, KSet={2}, ModeSet={"off", "both"}, BodyAttrSet={"none", "text"}, ShapeSet={"matrix"}, FontSet={1}, HAutoSet={False}, UseColorSet={"default"}, ReEncSet={False})),
+              dict(name="borders", consts=dict(PathSet=PATHS, ColourIdx={26, 552}, KSet={2}, ModeSet={"off", "border"}, BodyAttrSet={"none", "brd_top"}, ShapeSet={"col"}, FontSet={1}, HAutoSet={False}, UseColorSet={"default"}, ReEncSet={False})),
+              dict(name="options", consts=dict(PathSet={"single"}, ColourIdx={26, 552}, KSet={2}, ModeSet={"off", "both"}, BodyAttrSet={"text"}, ShapeSet={"scalar"}, FontSet={1}, HAutoSet={False, True}, UseColorSet={"default", "true", "false"}, ReEncSet={False, True})),
+                 dict(name="sim", consts=dict(PathSet=PATHS, ColourIdx=ALLIDX, KSet=set(range(1, 9)), ModeSet=MODES, BodyAttrSet=BATTR, ShapeSet={"scalar", "col", "matrix"}, FontSet=set(range(1, 11)), HAutoSet={False, True}, UseColorSet={"default", "true", "false"}, ReEncSet={False, True}), simulate=12000)],
 }
 JUDGE = ["C12_Resolve", "C12_Font", "C12_Complete"]
 
@@ -86,7 +86,18 @@ def run_one(sc):
         if tmp:
             spec["tmpdir"] = tmp
         try:
-            doc = colordocs.build_color_doc(spec)
+            if c.get("reenc") and spec["path"] != "figure":
+                # the same document object, first with the palette rotated by one position ...
+                c0 = dict(c); c0["pal"] = c["pal"][1:] + c["pal"][:1]
+                spec0 = spec_from_cfg(c0)
+                doc = colordocs.build_color_doc(spec0)
+                doc.rtf_encode()
+                # ... then every component replaced by the one of the scenario, and encoded again
+                fresh = colordocs.build_color_doc(spec)
+                for name in ("rtf_title", "rtf_subline", "rtf_column_header", "rtf_footnote", "rtf_source", "rtf_page_header", "rtf_page_footer", "rtf_body"):
+                    setattr(doc, name, getattr(fresh, name))
+            else:
+                doc = colordocs.build_color_doc(spec)
             text = doc.rtf_encode()
         finally:
             if tmp:
